@@ -384,6 +384,16 @@ def rule_maxcount(ctx):
                         lambda i: True, 2)
 
 
+def rule_intcost(ctx):
+    """(seed C07_9, written for the slicer's model; the same clause for the tree's own figures)"""
+    from .c07 import exact_cost_divisions
+
+    r = RuleResult("C03-INTCOST", "the tree's cost figures are computed with integer arithmetic", 2)
+    tc = ctx.p.cls(C.CORE, "ContractionTree")
+    exact_cost_divisions(ctx, list(tc.methods.values()), "C03-INTCOST", r)
+    return r
+
+
 def rule_totals_state(ctx):
     """Shared with C04-COPY (tracker attributes only; seed C03_9): the reported totals are read from
     running totals kept on the tree; after a state transfer they describe the new structure only if
@@ -395,4 +405,4 @@ def rule_totals_state(ctx):
                         lambda i: any(t in i.construct for t in ("_flops", "_write", "_sizes", "_track_")), 3)
 
 
-RULES = [rule_prov, rule_mult, rule_leafcount, rule_multpair, rule_exec, rule_peak, rule_intsize, rule_maxcount, rule_totals_state]
+RULES = [rule_prov, rule_mult, rule_leafcount, rule_multpair, rule_exec, rule_peak, rule_intsize, rule_maxcount, rule_totals_state, rule_intcost]
